@@ -63,6 +63,36 @@ union U2 { 1 -> struct U2A { byte b; }
  2 -> struct U2B { uint64 q; }
  3 -> message U2C { 1 -> int16 h; }
 }
+/* documented and deprecated things: anything Generate derives from them must be derived into its own copy */
+[opcode(0x12)]
+message M5 {
+	// first
+	[deprecated("use b")]
+	1 -> string a;
+	/* second */
+	2 -> string b;
+	[deprecated("gone")]
+	3 -> S1[] c;
+}
+// union doc
+union U3 {
+	// branch doc one
+	[deprecated("old branch")]
+	1 -> struct U3A { string s; }
+	2 -> message U3B {
+		[deprecated("old field")]
+		1 -> string t;
+	}
+	[deprecated("older branch")]
+	3 -> message U3C { 1 -> guid g; }
+}
+// enum doc
+enum E5 {
+	// option doc
+	[deprecated("no")]
+	A = 1;
+	B = 2;
+}
 `
 const c14DepB = `const string go_package = "example.com/x/depb";
 struct TB { int64 v; string w; }
@@ -119,6 +149,7 @@ func runC14(c *Ctx) (int, error) {
 		Spare      int      `json:"spare"`
 		Goroutines int      `json:"goroutines"`
 		Repeat     int      `json:"repeat"`
+		Pre        [][]string `json:"pre"`
 		imports    bool
 	}
 	var scens []scen
@@ -129,16 +160,16 @@ func runC14(c *Ctx) (int, error) {
 				if c.Tier != "thorough" && oi > 0 && (spare+gor+oi+c.Seed)%2 == 0 {
 					continue
 				}
-				scens = append(scens, scen{filepath.Join(dir, "flat.bop"), "Generate", opts, "separate", spare, gor, 6, false})
-				scens = append(scens, scen{filepath.Join(dir, "main.bop"), "Generate", opts, "separate", spare, gor, 6, true})
-				scens = append(scens, scen{filepath.Join(dir, "main.bop"), "Generate", opts, "combined", spare, gor, 6, true})
+				scens = append(scens, scen{filepath.Join(dir, "flat.bop"), "Generate", opts, "separate", spare, gor, 6, nil, false})
+				scens = append(scens, scen{filepath.Join(dir, "main.bop"), "Generate", opts, "separate", spare, gor, 6, nil, true})
+				scens = append(scens, scen{filepath.Join(dir, "main.bop"), "Generate", opts, "combined", spare, gor, 6, nil, true})
 			}
-			scens = append(scens, scen{filepath.Join(dir, "main.bop"), "Validate", nil, "separate", spare, gor, 10, true})
+			scens = append(scens, scen{filepath.Join(dir, "main.bop"), "Validate", nil, "separate", spare, gor, 10, nil, true})
 		}
 	}
 	for _, gor := range []int{2, 8} {
-		scens = append(scens, scen{filepath.Join(dir, "flat.bop"), "Format", nil, "separate", 0, gor, 10, false})
-		scens = append(scens, scen{filepath.Join(dir, "main.bop"), "ReadFile", nil, "separate", 0, gor, 10, true})
+		scens = append(scens, scen{filepath.Join(dir, "flat.bop"), "Format", nil, "separate", 0, gor, 10, nil, false})
+		scens = append(scens, scen{filepath.Join(dir, "main.bop"), "ReadFile", nil, "separate", 0, gor, 10, nil, true})
 	}
 	var events []map[string]interface{}
 	runOnce := func(s scen) (res map[string]interface{}, race bool, crash string) {
@@ -169,13 +200,17 @@ func runC14(c *Ctx) (int, error) {
 		}
 		return res, race, ""
 	}
+	// earlier calls in the same process: each single option, all of them, none of them, and two in a row
+	histories := [][][]string{{{}}, {{"SharedMemoryStrings"}}, {{"PrivateDefinitions"}}, {{"AlwaysUsePointerReceivers"}}, {{"GenerateUnsafeMethods"}}, {{"GenerateFieldTags"}},
+		{{"AlwaysUsePointerReceivers", "PrivateDefinitions", "GenerateFieldTags", "GenerateUnsafeMethods", "SharedMemoryStrings"}}, {{"GenerateUnsafeMethods", "SharedMemoryStrings"}, {}}}
+	ncalls := 0
 	for _, s := range scens {
 		var hashes []string
 		if s.Opts == nil {
 			s.Opts = []string{}
 		}
 		ev := map[string]interface{}{"api": s.API, "opts": s.Opts, "mode": s.Mode, "spare": s.Spare, "goroutines": s.Goroutines, "imports": s.imports,
-			"race": false, "identical": true, "unchanged": true, "crossproc": true, "crash": "", "diff": ""}
+			"race": false, "identical": true, "unchanged": true, "crossproc": true, "history": true, "crash": "", "diff": ""}
 		nproc := 3
 		for p := 0; p < nproc; p++ {
 			res, race, crash := runOnce(s)
@@ -201,6 +236,27 @@ func runC14(c *Ctx) (int, error) {
 				ev["crossproc"] = false
 			}
 		}
+		// a function of its input alone: the result must not depend on which calls the process made before
+		if s.API == "Generate" && s.Goroutines == 2 && ev["crash"] == "" && len(hashes) > 0 {
+			for _, pre := range histories {
+				hs := s
+				hs.Pre = pre
+				hs.Goroutines, hs.Repeat = 1, 2
+				res, _, crash := runOnce(hs)
+				if crash != "" {
+					ev["crash"] = "after earlier calls with other settings: " + crash
+					break
+				}
+				if h, _ := res["hash"].(string); h != hashes[0] {
+					ev["history"] = false
+				}
+				if b, _ := res["unchanged"].(bool); !b {
+					ev["unchanged"] = false
+					ev["diff"], _ = res["diff"].(string)
+				}
+				ncalls += len(pre) + 2
+			}
+		}
 		events = append(events, ev)
 	}
 	devs := c.OpenDevs("C14")
@@ -210,8 +266,8 @@ func runC14(c *Ctx) (int, error) {
 		return 2, infra("%v", err)
 	}
 	reportParseVerdicts(c, vs, dummy, events, "c14")
-	cov := Coverage{"evaluations": len(events) * 3, "distinct_nontrivial": len(events), "samples": []interface{}{events[0], events[len(events)/2], events[len(events)-1]},
-		"rule":   "scenarios = {no imports, separate, combined} x spare capacity {0,1,3} of each of the File's five slices x goroutines {2,8} x {Generate under 3 option sets, Validate, Format, ReadFile} on a schema with >= 4 entries in every map-typed table (messages, union branches, enums, consts); each scenario runs in 3 fresh processes of a -race build, 6-10 calls per goroutine; results must be byte-identical within and across processes, the File (incl. s[:cap(s)]) unchanged, and the race detector silent; GenConcurrency.tla explores all interleavings of the design (copy-on-append) for 3 goroutines x 2 appends x spare 0..2",
+	cov := Coverage{"evaluations": len(events)*3 + ncalls, "distinct_nontrivial": len(events), "samples": []interface{}{events[0], events[len(events)/2], events[len(events)-1]},
+		"rule":   "scenarios = {no imports, separate, combined} x spare capacity {0,1,3} of each of the File's five slices x goroutines {2,8} x {Generate under 3 option sets, Validate, Format, ReadFile} on a schema with >= 4 entries in every map-typed table (messages, union branches, enums, consts); each scenario runs in 3 fresh processes of a -race build, 6-10 calls per goroutine; results must be byte-identical within and across processes and after earlier Generate calls with 8 other settings histories in the same process, the File (incl. s[:cap(s)]) unchanged, and the race detector silent; GenConcurrency.tla explores all interleavings of the design (copy-on-append) for 3 goroutines x 2 appends x spare 0..2",
 		"states": states + st, "transitions": trans + tr, "traces_validated_against_impl": total["ok"] + total["known"], "scenarios": len(events), "open_deviations": devs,
 		"explanation": "race-freedom of the executed schedules is decided by Go's race detector (happens-before based, so it covers every schedule with the same synchronisation structure); the TLA+ model explores the schedules of the design; there is no replay of a particular interleaving into the code (no scheduler hook)"}
 	return c.Finish("exploration", cov, []string{"Go's race detector reports every pair of conflicting accesses without a happens-before edge in the executed run", "determinism across map iteration orders is sampled by 3 fresh processes x up to 80 calls per scenario"}), nil
